@@ -39,8 +39,9 @@ VARIANTS = [
       "            if collector is not None:\n"
       "                collector(diff_from_ode(the_ode, state_dim))",
       "            if collector is None:\n                continue\n"
-      "            collector(diff_from_ode(the_ode, state_dim))", "fire",
-      "D11"),
+      "            collector(diff_from_ode(the_ode, state_dim))", "silent",
+      "", "the collector call is the last statement of the round: `continue`"
+      " skips nothing (behaviour-preserving)"),
     V("return-unchecked", O,
       "        return z if 0.0 <= z <= 1e100 else 1e200",
       "        return z", "fire", "D11.4"),
